@@ -1,90 +1,154 @@
 import Arc.Proofs.C15.Strip
-/-! C15 helper lemmas: mask → unmask round trip when no quoted identifier is masked and the text has
-no two consecutive underscores. -/
+/-! C15 helper lemmas: mask → unmask round trip for the single-pass `UnmaskStringLiterals`
+(strings.NewReplacer). Part 1: decimal digits and placeholder shapes. -/
 namespace Arc.C15
 
-theorem isPrefixOf_self_append (p t : Bytes) : p.isPrefixOf (p ++ t) = true := by
-  induction p with
-  | nil => simp
-  | cons a p ih => simp [List.isPrefixOf, ih]
+/-! ### digits -/
+theorem digit_byte (c : Char) (h : c.isDigit = true) :
+    48 ≤ c.toNat ∧ c.toNat ≤ 57 := by
+  simp [Char.isDigit] at h
+  have h1 : (48 : UInt32) ≤ c.val := h.1
+  have h2 : c.val ≤ (57 : UInt32) := h.2
+  simp only [Char.toNat]
+  constructor
+  · exact UInt32.le_iff_toNat_le.mp h1
+  · exact UInt32.le_iff_toNat_le.mp h2
 
-theorem drop_self_append (p t : Bytes) : (p ++ t).drop p.length = t := by simp
+theorem dec_mem (n : Nat) (x : UInt8) (h : x ∈ dec n) : 48 ≤ x.toNat ∧ x.toNat ≤ 57 := by
+  simp only [dec, List.mem_map] at h
+  obtain ⟨c, hc, rfl⟩ := h
+  have := digit_byte c (Nat.isDigit_of_mem_toDigits (by decide) (by decide) hc)
+  have hlt : c.toNat < 256 := by omega
+  simp [Nat.toUInt8, UInt8.toNat_ofNat', Nat.mod_eq_of_lt hlt]
+  exact this
 
-theorem hasPair_append_left (a b : UInt8) (x y : Bytes) (h : hasPair a b (x ++ y) = false) :
-    hasPair a b x = false := by
-  induction x with
-  | nil => simp [hasPair]
-  | cons c x ih =>
-    cases x with
-    | nil => simp [hasPair]
-    | cons d x =>
-      simp only [List.cons_append, hasPair, Bool.or_eq_false_iff] at h ⊢
-      exact ⟨h.1, ih h.2⟩
+theorem dec_ne95 (n : Nat) (x : UInt8) (h : x ∈ dec n) : x ≠ 95 := by
+  intro hx; subst hx
+  have := dec_mem n 95 h
+  simp at this
 
-theorem phStr_shape (n : Nat) : ∃ r, phStr n = 95 :: 95 :: 83 :: r := by
+theorem dec_ne_nil (n : Nat) : dec n ≠ [] := by
+  simp [dec, Nat.toDigits_ne_nil]
+
+theorem digit_char_inj (c c' : Char) (h : c.isDigit = true) (h' : c'.isDigit = true)
+    (e : c.toNat.toUInt8 = c'.toNat.toUInt8) : c = c' := by
+  have d := digit_byte c h
+  have d' := digit_byte c' h'
+  have e2 := congrArg UInt8.toNat e
+  simp [Nat.toUInt8, UInt8.toNat_ofNat', Nat.mod_eq_of_lt (show c.toNat < 256 by omega),
+    Nat.mod_eq_of_lt (show c'.toNat < 256 by omega)] at e2
+  apply Char.ext
+  simp only [Char.toNat] at e2
+  exact UInt32.toNat_inj.mp e2
+
+theorem map_digit_inj : ∀ (l l' : List Char), (∀ c ∈ l, c.isDigit = true) → (∀ c ∈ l', c.isDigit = true) →
+    l.map (fun c => c.toNat.toUInt8) = l'.map (fun c => c.toNat.toUInt8) → l = l'
+  | [], [], _, _, _ => rfl
+  | [], _ :: _, _, _, e => by simp at e
+  | _ :: _, [], _, _, e => by simp at e
+  | a :: l, b :: l', h, h', e => by
+    simp only [List.map_cons, List.cons.injEq] at e
+    have := digit_char_inj a b (h a (by simp)) (h' b (by simp)) e.1
+    rw [this, map_digit_inj l l' (fun c hc => h c (by simp [hc])) (fun c hc => h' c (by simp [hc])) e.2]
+
+theorem dec_inj (k n : Nat) (h : dec k = dec n) : k = n := by
+  have hk : ∀ c ∈ Nat.toDigits 10 k, c.isDigit = true :=
+    fun c hc => Nat.isDigit_of_mem_toDigits (by decide) (by decide) hc
+  have hn : ∀ c ∈ Nat.toDigits 10 n, c.isDigit = true :=
+    fun c hc => Nat.isDigit_of_mem_toDigits (by decide) (by decide) hc
+  have := map_digit_inj _ _ hk hn h
+  have e := congrArg (fun l => Nat.ofDigitChars 10 l 0) this
+  simpa [Nat.ofDigitChars_ten_toDigits] using e
+
+/-! ### placeholder shapes -/
+
+/-- `p` is the text of some placeholder. -/
+def IsPh (p : Bytes) : Prop := ∃ k, p = phStr k ∨ p = phIdent k
+
+/-- digit strings followed by `__` are prefix-free -/
+theorem digits_prefix_free : ∀ (a b rest : Bytes), (∀ x ∈ a, x ≠ 95) → (∀ x ∈ b, x ≠ 95) →
+    (a ++ [95, 95]).isPrefixOf (b ++ [95, 95] ++ rest) = true → a = b
+  | [], [], _, _, _, _ => rfl
+  | [], x :: b, rest, _, hb, h => by
+    simp [List.isPrefixOf] at h
+    exact absurd h.1.symm (hb x (by simp))
+  | x :: a, [], rest, ha, _, h => by
+    simp [List.isPrefixOf] at h
+    exact absurd h.1 (ha x (by simp))
+  | x :: a, y :: b, rest, ha, hb, h => by
+    simp only [List.cons_append, List.isPrefixOf, Bool.and_eq_true, beq_iff_eq] at h
+    rw [h.1, digits_prefix_free a b rest (fun z hz => ha z (by simp [hz])) (fun z hz => hb z (by simp [hz])) h.2]
+
+theorem phStr_eq (n : Nat) : phStr n = 95 :: 95 :: 83 :: 84 :: 82 :: 95 :: (dec n ++ [95, 95]) := by
   simp [phStr, pfxStr]
+theorem phIdent_eq (n : Nat) :
+    phIdent n = 95 :: 95 :: 73 :: 68 :: 69 :: 78 :: 84 :: 95 :: (dec n ++ [95, 95]) := by
+  simp [phIdent, pfxIdent]
 
-/-- `strings.Replace(P ++ ph ++ T, ph, o, 1)` hits the placeholder when `P` has no `__`. -/
-theorem replaceFirst_hit (r o P T : Bytes) (hP : hasPair 95 95 P = false) :
-    replaceFirst (95 :: 95 :: 83 :: r) o (P ++ (95 :: 95 :: 83 :: r) ++ T) = P ++ o ++ T := by
-  induction P with
-  | nil =>
-    have h1 := isPrefixOf_self_append (95 :: 95 :: 83 :: r) T
-    simp only [List.nil_append, List.cons_append] at h1 ⊢
-    rw [replaceFirst, if_pos h1]
-    simp
-  | cons x P ih =>
-    have hne : (95 :: 95 :: 83 :: r).isPrefixOf (x :: P ++ (95 :: 95 :: 83 :: r) ++ T) = false := by
-      cases P with
-      | nil =>
-        simp [List.isPrefixOf]
-      | cons y P =>
-        simp only [hasPair, Bool.or_eq_false_iff, Bool.and_eq_false_imp, beq_iff_eq] at hP
-        simp only [List.cons_append, List.isPrefixOf, Bool.and_eq_false_imp, beq_iff_eq]
-        intro hx hy
-        have := hP.1 hx.symm
-        simp [hy] at this
-    have hP' := hasPair_tail _ _ _ _ hP
-    simp only [List.cons_append] at hne ⊢
-    rw [replaceFirst, hne]
-    simp only [Bool.false_eq_true, if_false]
-    have := ih hP'
-    simp only [List.cons_append, List.append_assoc] at this ⊢
+/-- no placeholder is a proper prefix of another one followed by anything -/
+theorem ph_prefix_free (p q rest : Bytes) (hp : IsPh p) (hq : IsPh q)
+    (h : p.isPrefixOf (q ++ rest) = true) : p = q := by
+  obtain ⟨k, hk⟩ := hp
+  obtain ⟨n, hn⟩ := hq
+  rcases hk with rfl | rfl <;> rcases hn with rfl | rfl
+  · rw [phStr_eq, phStr_eq] at h ⊢
+    simp only [List.cons_append, List.isPrefixOf, beq_self_eq_true, Bool.true_and] at h
+    have := digits_prefix_free (dec k) (dec n) rest (dec_ne95 k) (dec_ne95 n) (by simpa using h)
+    rw [this]
+  · rw [phStr_eq, phIdent_eq] at h
+    simp [List.isPrefixOf] at h
+  · rw [phIdent_eq, phStr_eq] at h
+    simp [List.isPrefixOf] at h
+  · rw [phIdent_eq, phIdent_eq] at h ⊢
+    simp only [List.cons_append, List.isPrefixOf, beq_self_eq_true, Bool.true_and] at h
+    have := digits_prefix_free (dec k) (dec n) rest (dec_ne95 k) (dec_ne95 n) (by simpa using h)
     rw [this]
 
-def noIdentSeg : Seg → Bool
-  | .ident _ => false
-  | _ => true
+theorem phStr_inj (k n : Nat) (h : phStr k = phStr n) : k = n := by
+  rw [phStr_eq, phStr_eq] at h
+  simp at h
+  exact dec_inj k n h
+theorem phIdent_inj (k n : Nat) (h : phIdent k = phIdent n) : k = n := by
+  rw [phIdent_eq, phIdent_eq] at h
+  simp at h
+  exact dec_inj k n h
+theorem phStr_ne_phIdent (k n : Nat) : phStr k ≠ phIdent n := by
+  rw [phStr_eq, phIdent_eq]; simp
 
-theorem roundtrip_gen (segs : List Seg) : ∀ (n : Nat) (im : List (Bytes × Bytes)) (P : Bytes),
-    segs.all noIdentSeg = true → hasPair 95 95 (P ++ segBytes segs) = false →
-    unmask (P ++ (render n im segs).1) (render n im segs).2 = P ++ segBytes segs := by
-  induction segs with
-  | nil => intro n im P _ _; simp [render, unmask, segBytes]
-  | cons sg segs ih =>
-    intro n im P hni hp
-    simp only [List.all_cons, Bool.and_eq_true] at hni
-    cases sg with
-    | raw b =>
-      have := ih n im (P ++ [b]) hni.2 (by simpa [segBytes, Seg.bytes] using hp)
-      simpa [render, segBytes, Seg.bytes] using this
-    | str o =>
-      obtain ⟨r, hr⟩ := phStr_shape n
-      have hP : hasPair 95 95 P = false := hasPair_append_left _ _ _ _ hp
-      have h1 : replaceFirst (phStr n) o (P ++ phStr n ++ (render (n + 1) im segs).1)
-          = P ++ o ++ (render (n + 1) im segs).1 := by
-        rw [hr]; exact replaceFirst_hit r o P _ hP
-      have := ih (n + 1) im (P ++ o) hni.2 (by simpa [segBytes, Seg.bytes] using hp)
-      simp only [render, unmask, List.foldl_cons, unmaskStep, segBytes, List.flatMap_cons, Seg.bytes] at this ⊢
-      simp only [Bool.false_eq_true, if_false]
-      rw [← List.append_assoc, h1]
-      simpa using this
-    | ident o => simp [noIdentSeg] at hni
-    | lcom o =>
-      have := ih n im (P ++ o) hni.2 (by simpa [segBytes, Seg.bytes] using hp)
-      simpa [render, segBytes, Seg.bytes] using this
-    | bcom o =>
-      have := ih n im (P ++ o) hni.2 (by simpa [segBytes, Seg.bytes] using hp)
-      simpa [render, segBytes, Seg.bytes] using this
+/-! ### no placeholder starts inside clean text -/
+
+/-- what follows a stretch of un-masked text in the masked query: nothing, or a placeholder -/
+def TailOK (tail : Bytes) : Prop := tail = [] ∨ ∃ x r, tail = 95 :: 95 :: x :: r
+
+theorem no_str (w tail more : Bytes) (d : UInt8) (hd : d ≠ 95) (hc : hasSub mkSTR w = false)
+    (hw : w ≠ []) (ht : TailOK tail) :
+    (95 :: 95 :: 83 :: 84 :: 82 :: 95 :: d :: more).isPrefixOf (w ++ tail) = false := by
+  rcases ht with rfl | ⟨x, r, rfl⟩ <;>
+  rcases w with _ | ⟨a1, _ | ⟨a2, _ | ⟨a3, _ | ⟨a4, _ | ⟨a5, _ | ⟨a6, _ | ⟨a7, w⟩⟩⟩⟩⟩⟩⟩ <;>
+  simp_all [List.isPrefixOf, hasSub, mkSTR] <;> (intros; subst_vars; simp_all)
+
+theorem no_ident (w tail more : Bytes) (d : UInt8) (hd : d ≠ 95) (hc : hasSub mkIDENT w = false)
+    (hw : w ≠ []) (ht : TailOK tail) :
+    (95 :: 95 :: 73 :: 68 :: 69 :: 78 :: 84 :: 95 :: d :: more).isPrefixOf (w ++ tail) = false := by
+  rcases ht with rfl | ⟨x, r, rfl⟩ <;>
+  rcases w with _ | ⟨a1, _ | ⟨a2, _ | ⟨a3, _ | ⟨a4, _ | ⟨a5, _ | ⟨a6, _ | ⟨a7, _ | ⟨a8, _ | ⟨a9, w⟩⟩⟩⟩⟩⟩⟩⟩⟩ <;>
+  simp_all [List.isPrefixOf, hasSub, mkIDENT] <;> (intros; subst_vars; simp_all)
+
+theorem dec_head (n : Nat) : ∃ d more, dec n = d :: more ∧ d ≠ 95 := by
+  cases h : dec n with
+  | nil => exact absurd h (dec_ne_nil n)
+  | cons d more => exact ⟨d, more, rfl, dec_ne95 n d (by simp [h])⟩
+
+/-- No placeholder text starts at a byte of a clean stretch `w` of un-masked text. -/
+theorem no_ph_in_clean (p w tail : Bytes) (hp : IsPh p) (hc : runClean w = true) (hw : w ≠ [])
+    (ht : TailOK tail) : p.isPrefixOf (w ++ tail) = false := by
+  simp only [runClean, Bool.and_eq_true, Bool.not_eq_eq_eq_not, Bool.not_true] at hc
+  obtain ⟨k, rfl | rfl⟩ := hp
+  · obtain ⟨d, more, hd, hne⟩ := dec_head k
+    rw [phStr_eq, hd]
+    exact no_str w tail _ d hne hc.1 hw ht
+  · obtain ⟨d, more, hd, hne⟩ := dec_head k
+    rw [phIdent_eq, hd]
+    exact no_ident w tail _ d hne hc.2 hw ht
 
 end Arc.C15
